@@ -18,8 +18,10 @@ import (
 	"fmt"
 	"go/ast"
 	"go/build"
+	"go/importer"
 	"go/parser"
 	"go/token"
+	"go/types"
 	"os"
 	"path/filepath"
 	"sort"
@@ -40,6 +42,10 @@ type instrumenter struct {
 	// unsupported sync primitives seen (World A only)
 	unsupported []string
 	selects     int
+	// `for ... range x` statements whose x is a channel, keyed by "file:offset of the for keyword"
+	// (needs types: the package is type-checked from source once per build)
+	chanRanges map[string]bool
+	ranges     int
 	// the package starts goroutines itself and this build runs every call under the scheduler (World B)
 	libGoroutines bool
 }
@@ -60,6 +66,7 @@ func (in *instrumenter) instrumentDir(dir, relName string) error {
 	ctx := build.Default
 	ctx.GOOS, ctx.GOARCH = "linux", "amd64"
 	ctx.BuildTags = []string{"verif"}
+	var names []string
 	for _, e := range ents {
 		n := e.Name()
 		if e.IsDir() || !strings.HasSuffix(n, ".go") || strings.HasSuffix(n, "_test.go") || strings.HasPrefix(n, "verif_") {
@@ -72,6 +79,12 @@ func (in *instrumenter) instrumentDir(dir, relName string) error {
 		if !ok {
 			continue
 		}
+		names = append(names, n)
+	}
+	if in.swapSync {
+		in.findChanRanges(dir, names)
+	}
+	for _, n := range names {
 		if err := in.instrumentFile(filepath.Join(dir, n), filepath.Join(relName, n)); err != nil {
 			return fmt.Errorf("%s: %w", n, err)
 		}
@@ -240,6 +253,67 @@ func (in *instrumenter) instrumentFile(path, rel string) error {
 		// go statements and blocking selects between tasks are not simulated
 		twoValue := map[ast.Expr]bool{}
 		inComm := map[ast.Node]bool{}
+		// A select becomes a loop of its own, so an unlabeled `continue` in one of its
+		// cases must name the loop it meant: that loop gets a label (its own, or a new one).
+		contFixed := map[*ast.SelectStmt]bool{}
+		{
+			var loops []ast.Node // enclosing loops, innermost last (nil marks a function boundary)
+			loopLabel := map[ast.Node]string{}
+			var walk func(n ast.Node)
+			walk = func(n ast.Node) {
+				ast.Inspect(n, func(m ast.Node) bool {
+					if m == nil || m == n {
+						return true
+					}
+					switch y := m.(type) {
+					case *ast.LabeledStmt:
+						switch y.Stmt.(type) {
+						case *ast.ForStmt, *ast.RangeStmt:
+							loopLabel[y.Stmt] = y.Label.Name
+						}
+						return true
+					case *ast.FuncLit:
+						loops = append(loops, nil)
+						walk(y.Body)
+						loops = loops[:len(loops)-1]
+						return false
+					case *ast.ForStmt, *ast.RangeStmt:
+						loops = append(loops, m)
+						walk(m)
+						loops = loops[:len(loops)-1]
+						return false
+					case *ast.SelectStmt:
+						if hasBareContinue(y.Body) && len(loops) > 0 && loops[len(loops)-1] != nil {
+							lp := loops[len(loops)-1]
+							lbl := loopLabel[lp]
+							if lbl == "" {
+								in.selects++
+								lbl = fmt.Sprintf("verifLoop%d", in.selects)
+								loopLabel[lp] = lbl
+								sp = append(sp, splice{off: off(lp.Pos()), text: lbl + ": "})
+							}
+							var fix func(k ast.Node) bool
+							fix = func(k ast.Node) bool {
+								switch z := k.(type) {
+								case *ast.ForStmt, *ast.RangeStmt, *ast.FuncLit:
+									return false
+								case *ast.BranchStmt:
+									if z.Tok == token.CONTINUE && z.Label == nil {
+										sp = append(sp, splice{off: off(z.End()), text: " " + lbl})
+									}
+								}
+								return true
+							}
+							ast.Inspect(y.Body, fix)
+							contFixed[y] = true
+						}
+						return true
+					}
+					return true
+				})
+			}
+			walk(f)
+		}
 		ast.Inspect(f, func(n ast.Node) bool {
 			switch x := n.(type) {
 			case *ast.GoStmt:
@@ -340,7 +414,7 @@ func (in *instrumenter) instrumentFile(path, rel string) error {
 						okRewrite = false
 					}
 				}
-				if !okRewrite || hasBareContinue(x.Body) {
+				if !okRewrite || (hasBareContinue(x.Body) && !contFixed[x]) {
 					in.unsupported = append(in.unsupported, fmt.Sprintf("%s:%d select the simulator cannot rewrite (unlabeled continue in a case, or a channel operand containing a receive or function literal)", rel, line))
 					return true
 				}
@@ -377,19 +451,66 @@ func (in *instrumenter) instrumentFile(path, rel string) error {
 						sp = append(sp, splice{off: off(ci.ch.Pos()), del: off(ci.ch.End()) - off(ci.ch.Pos()), text: fmt.Sprintf("verifrt.Only(verifS%s+verifT%s, %d, %d, %s)", tag, tag, n, i, cn)})
 					}
 				}
+				dirs, chanArgs := "", ""
+				for i, ci := range comms {
+					if ci.send {
+						dirs += "s"
+					} else {
+						dirs += "r"
+					}
+					chanArgs += fmt.Sprintf(", verifC%s_%d", tag, i)
+				}
 				names = append(names, "verifS"+tag, "verifT"+tag)
 				vals = append(vals, fmt.Sprintf("verifrt.SelectStart(%d)", n), "0")
 				sp = append(sp, splice{off: off(x.Select), text: fmt.Sprintf("for %s := %s; ; verifT%s++ { ", strings.Join(names, ", "), strings.Join(vals, ", "), tag)})
 				if defClause != nil {
-					sp = append(sp, splice{off: off(defClause.Colon) + 1, text: fmt.Sprintf(" if verifrt.SelectMore(verifT%s, %d) { continue }; ", tag, n)})
+					sp = append(sp, splice{off: off(defClause.Colon) + 1, text: fmt.Sprintf(" if verifrt.SelectMore(verifT%s, %d, %q%s) { continue }; ", tag, n, dirs, chanArgs)})
 				} else {
-					sp = append(sp, splice{off: off(x.Body.Rbrace), text: fmt.Sprintf("default: verifrt.SelectSpin(verifT%s, %d); continue; ", tag, n)})
+					sp = append(sp, splice{off: off(x.Body.Rbrace), text: fmt.Sprintf("default: verifrt.SelectSpin(verifT%s, %d, %q%s); continue; ", tag, n, dirs, chanArgs)})
 				}
-				sp = append(sp, splice{off: off(x.Body.Rbrace) + 1, text: "; break }"})
+				tail := "; break }"
+				if selectTerminates(x) {
+					// the select was a terminating statement (every case returns or panics):
+					// keep the function body well-formed after turning it into a loop
+					tail += "; panic(\"verif: unreachable\")"
+				}
+				sp = append(sp, splice{off: off(x.Body.Rbrace) + 1, text: tail})
 				swapped = true
 			case *ast.RangeStmt:
-				// a range over a channel cannot be told from the syntax alone; the
-				// scheduler's wedge detector reports it (exit 2) if it ever blocks
+				// for v := range ch { ... } -> for c := ch; ; { v, ok := verifrt.Recv2(c); if !ok { break }; ... }
+				if !in.chanRanges[fmt.Sprintf("%s:%d", filepath.Base(path), off(x.For))] {
+					return true
+				}
+				plainX := true
+				ast.Inspect(x.X, func(n ast.Node) bool {
+					switch y := n.(type) {
+					case *ast.FuncLit:
+						plainX = false
+					case *ast.UnaryExpr:
+						if y.Op == token.ARROW {
+							plainX = false
+						}
+					}
+					return plainX
+				})
+				if !plainX {
+					in.unsupported = append(in.unsupported, fmt.Sprintf("%s:%d range over a channel expression containing a receive or function literal", rel, fset.Position(x.Pos()).Line))
+					return true
+				}
+				in.ranges++
+				tag := fmt.Sprintf("%d", in.ranges)
+				chSrc := string(src[off(x.X.Pos()):off(x.X.End())])
+				hdr := fmt.Sprintf("for verifR%s := %s; ; { ", tag, chSrc)
+				switch {
+				case x.Key == nil:
+					hdr += fmt.Sprintf("if _, verifOk%s := verifrt.Recv2(verifR%s); !verifOk%s { break }; ", tag, tag, tag)
+				case x.Tok == token.DEFINE:
+					hdr += fmt.Sprintf("%s, verifOk%s := verifrt.Recv2(verifR%s); if !verifOk%s { break }; ", string(src[off(x.Key.Pos()):off(x.Key.End())]), tag, tag, tag)
+				default:
+					hdr += fmt.Sprintf("verifV%s, verifOk%s := verifrt.Recv2(verifR%s); if !verifOk%s { break }; %s = verifV%s; ", tag, tag, tag, tag, string(src[off(x.Key.Pos()):off(x.Key.End())]), tag)
+				}
+				sp = append(sp, splice{off: off(x.For), del: off(x.Body.Lbrace) + 1 - off(x.For), text: hdr})
+				swapped = true
 			case *ast.CallExpr:
 				if id, ok := x.Fun.(*ast.Ident); ok && id.Name == "close" && id.Obj == nil && len(x.Args) == 1 {
 					sp = append(sp, splice{off: off(id.Pos()), del: 5, text: "verifrt.Close"})
@@ -440,6 +561,83 @@ func (in *instrumenter) instrumentFile(path, rel string) error {
 	return os.WriteFile(path, out.Bytes(), 0o644)
 }
 
+// selectTerminates: is the select a terminating statement in the sense of the
+// language specification (conservative: false when unsure)?
+func selectTerminates(x *ast.SelectStmt) bool {
+	if hasBareBreak(x.Body) {
+		return false
+	}
+	for _, c := range x.Body.List {
+		if !listTerminates(c.(*ast.CommClause).Body) {
+			return false
+		}
+	}
+	return true
+}
+
+func listTerminates(list []ast.Stmt) bool {
+	if len(list) == 0 {
+		return false
+	}
+	switch s := list[len(list)-1].(type) {
+	case *ast.ReturnStmt:
+		return true
+	case *ast.BranchStmt:
+		return s.Tok == token.GOTO
+	case *ast.ExprStmt:
+		if c, ok := s.X.(*ast.CallExpr); ok {
+			if id, ok := c.Fun.(*ast.Ident); ok && id.Name == "panic" && id.Obj == nil {
+				return true
+			}
+		}
+	case *ast.BlockStmt:
+		return listTerminates(s.List)
+	case *ast.IfStmt:
+		if s.Else == nil || !listTerminates(s.Body.List) {
+			return false
+		}
+		switch e := s.Else.(type) {
+		case *ast.BlockStmt:
+			return listTerminates(e.List)
+		case *ast.IfStmt:
+			return listTerminates([]ast.Stmt{e})
+		}
+	case *ast.ForStmt:
+		return s.Cond == nil && !hasBareBreak(s.Body)
+	case *ast.LabeledStmt:
+		return false
+	}
+	return false
+}
+
+// hasBareBreak: an unlabeled break that binds to the statement owning body, or any labeled break (conservative).
+func hasBareBreak(body *ast.BlockStmt) bool {
+	found := false
+	var visit func(n ast.Node) bool
+	visit = func(n ast.Node) bool {
+		switch x := n.(type) {
+		case *ast.ForStmt, *ast.RangeStmt, *ast.FuncLit, *ast.SwitchStmt, *ast.TypeSwitchStmt, *ast.SelectStmt:
+			if n != ast.Node(body) {
+				// unlabeled breaks inside bind there; labeled ones may still leave us
+				ast.Inspect(n, func(m ast.Node) bool {
+					if b, ok := m.(*ast.BranchStmt); ok && b.Tok == token.BREAK && b.Label != nil {
+						found = true
+					}
+					return !found
+				})
+				return false
+			}
+		case *ast.BranchStmt:
+			if x.Tok == token.BREAK {
+				found = true
+			}
+		}
+		return !found
+	}
+	ast.Inspect(body, visit)
+	return found
+}
+
 // hasBareContinue: does the select body contain an unlabeled continue that binds
 // outside the select (i.e. not inside a loop or function literal nested in a case)?
 func hasBareContinue(body *ast.BlockStmt) bool {
@@ -485,6 +683,53 @@ func (in *instrumenter) writeSiteTable(dir string) error {
 	}
 	b.WriteString("}\n")
 	return os.WriteFile(filepath.Join(dir, "verif_sites.go"), b.Bytes(), 0o644)
+}
+
+// findChanRanges type-checks the package from source (standard library
+// included; about a second) and records the range statements over channels.
+// If the package does not type-check the set stays empty: such a range is then
+// left alone and, should it ever block, reported by the wedge detector.
+func (in *instrumenter) findChanRanges(dir string, names []string) {
+	in.chanRanges = map[string]bool{}
+	fset := token.NewFileSet()
+	var files []*ast.File
+	for _, n := range names {
+		f, err := parser.ParseFile(fset, filepath.Join(dir, n), nil, parser.SkipObjectResolution)
+		if err != nil {
+			return
+		}
+		files = append(files, f)
+	}
+	anyRange := false
+	for _, f := range files {
+		ast.Inspect(f, func(n ast.Node) bool {
+			if _, ok := n.(*ast.RangeStmt); ok {
+				anyRange = true
+			}
+			return !anyRange
+		})
+	}
+	if !anyRange {
+		return
+	}
+	info := &types.Info{Types: map[ast.Expr]types.TypeAndValue{}}
+	conf := types.Config{Importer: importer.ForCompiler(fset, "source", nil), Error: func(error) {}}
+	_, _ = conf.Check("p", fset, files, info)
+	for _, f := range files {
+		tf := fset.File(f.Pos())
+		ast.Inspect(f, func(n ast.Node) bool {
+			rs, ok := n.(*ast.RangeStmt)
+			if !ok {
+				return true
+			}
+			if tv, ok := info.Types[rs.X]; ok && tv.Type != nil {
+				if _, isChan := tv.Type.Underlying().(*types.Chan); isChan {
+					in.chanRanges[fmt.Sprintf("%s:%d", filepath.Base(tf.Name()), tf.Offset(rs.For))] = true
+				}
+			}
+			return true
+		})
+	}
 }
 
 // packageStartsGoroutines: does a non-test file of the package in dir contain a go statement?
